@@ -822,21 +822,23 @@ func c06Tiled(c *hx.Ctx, t c06Tile, gen string) {
 		c.Count("tiled:ht-ok")
 	case strings.HasPrefix(r, "panic"):
 		if strings.Contains(r, "index out of range [-") && strings.Contains(r, "htj2kPrecinctTree") {
+			// the round-2 finding (fixed by 95e1f44); kept as its own class so that a regression is named
 			c.Fail(hx.Failure{Class: "htj2k-tiled-negative-codeblock-index-panic",
-				What:  "jpeg2000.Encoder (HTJ2KMode, tiles smaller than the image, small code-blocks) panics in t2.(*htj2kPrecinctTree).sent: buildTilePacketEncoder derives CBX/CBY from image-sized sub-band offsets (toResolutionCoordinates/getSubbandDimensions) and gets -1: " + r[:c06min(len(r), 300)],
+				What:  "jpeg2000.Encoder (HTJ2KMode, tiles smaller than the image, small code-blocks) panics in t2.(*htj2kPrecinctTree).sent: " + r[:c06min(len(r), 300)],
 				Input: in})
 		} else {
-			c.Fail(hx.Failure{Class: "htj2k-tiled-panic-other", What: r[:c06min(len(r), 600)], Input: in})
+			c.Fail(hx.Failure{Class: "htj2k-tiled-panic", What: r[:c06min(len(r), 600)], Input: in})
 		}
-	default:
-		// mismatch / error: is it specific to the HT path? the classic T1 coder on the same tiling is the control
+	case r == "mismatch":
+		// tiled JPEG 2000 is expected to be exact since 95e1f44 / 104b234: no exemption; the classic coder run only names the layer
 		rc := c06TiledEncDec(t, src, false)
+		cl := "htj2k-tiled-roundtrip"
 		if rc == "ok" {
-			c.Fail(hx.Failure{Class: "htj2k-tiled-roundtrip-ht-only", What: "tiled reversible round trip fails with the HT block coder (" + r + ") but succeeds with the classic T1 coder", Input: in})
-		} else {
-			// same failure with the classic coder: the tile geometry defects of C19 (j2k-tiled-codeblock-index-canvas-vs-local …), not an HT defect
-			c.Count("monitor:tiled-fails-with-classic-coder-too(C19)")
+			cl = "htj2k-tiled-roundtrip-ht-only"
 		}
+		c.Fail(hx.Failure{Class: cl, What: "tiled reversible HTJ2K round trip (low-level encoder) is not exact; classic T1 coder on the same tiling: " + rc, Input: in})
+	default:
+		c.Fail(hx.Failure{Class: "htj2k-tiled-error", What: "tiled reversible HTJ2K encode/decode failed: " + r[:c06min(len(r), 300)], Input: in})
 	}
 }
 
@@ -1102,6 +1104,8 @@ func c06(c *hx.Ctx) {
 			CBW: c.R.Pick([]int{4, 4, 8, 16, 64}), CBH: c.R.Pick([]int{4, 4, 8, 16, 64})}
 		c06Tiled(c, t, "random")
 	}
+	// 9. round 3: packet-header empty-band signalling and the U_q admissibility check
+	c06Round3(c)
 	_ = jpeg2000.NewDecoder
 	_ = t2.NewPacketEncoder
 }
